@@ -2,7 +2,7 @@
 from . import core_check
 
 ASBUILT = ["del_marker_claims_reindented_line", "initial_is_line_numbers_only",
-           "stale_entry_applied_by_line_number", "irebase_pairs_by_position"]
+           "stale_entry_applied_by_line_number", "irebase_pairs_by_position", "pick_concluded_by_commit"]
 
 # A file without a final newline makes the identity of its last line depend on its position (the same text is
 # "changed" for git when a line is appended after it), so that family is used only where every commit takes
@@ -30,6 +30,7 @@ DECORATED = ("edit", "ckpt", "commit_all", "readonly", "ckpt_repeat")
 AMEND = ("edit_ins", "edit_del", "ckpt", "commit_all", "amend")
 REWRITE = ("edit_ins", "ckpt", "commit_all", "branch", "switch", "rebase", "cherry", "squash")
 IREBASE = ("edit_ins", "ckpt", "commit_all", "branch", "switch", "irebase", "cherry_many")
+CONFLICT = ("edit_ins", "ckpt", "commit_all", "branch", "switch", "conflict")
 MIXED = ("edit", "ckpt", "add", "commit_all", "commit_staged", "reset_keep", "stash", "checkout_paths")
 
 PLANS = {
@@ -54,8 +55,13 @@ PLANS = {
         ],
     },
     "C02": {
-        "clauses": ["C02_Carried", "C03_Notes", "C03_Blame", "C01_OnlyAdded"],
+        "clauses": ["C02_Carried", "C03_Notes", "C03_Blame", "C01_OnlyAdded", "C02_AbortNoop"],
         "quick": [
+            # operations that stop on a conflict: resolved (theirs / union) and continued, concluded by a plain
+            # commit, or aborted - at the first or a later commit of a rebase / multi-commit cherry-pick
+            dict(name="conflicts", consts=consts(alphabet=CONFLICT, steps=9, commits=6, uid=4, lines=4,
+                                                 sessions=("S1",)), invariants=G_ALL, budget=150,
+                 variants=RENDERS[:4], per_tag=2),
             dict(name="carry", consts=consts(alphabet=CARRY, steps=6, commits=3, lines=3), invariants=G_ALL,
                  budget=200, variants=RENDERS[:4]),
             dict(name="amend", consts=consts(alphabet=AMEND, steps=6, commits=4, lines=4, sessions=("S1",)),
@@ -68,6 +74,9 @@ PLANS = {
                  variants=RENDERS[:3], per_tag=1),
         ],
         "thorough": [
+            dict(name="conflicts", consts=consts(files=("f", "g"), alphabet=CONFLICT + ("edit_del",), steps=10, commits=7,
+                                                 uid=5, lines=4, sessions=("S1",)), invariants=G_ALL, budget=1500,
+                 variants=RENDERS, per_tag=3, timeout=3000, workers=12),
             dict(name="carry", consts=consts(alphabet=CARRY, steps=7, commits=3, lines=3), invariants=G_ALL,
                  budget=2000, variants=RENDERS, per_tag=3, timeout=2400),
             dict(name="carry2f", consts=consts(files=("f", "g"), alphabet=CARRY, steps=6, commits=3, lines=3),
@@ -105,7 +114,7 @@ PLANS = {
     "C04": {
         "clauses": ["C02_Carried", "C01_OnlyAdded", "C03_Notes"],
         "quick": [
-            dict(name="partial", consts=consts(alphabet=PARTIAL, steps=6, commits=3, lines=4), invariants=G_ALL,
+            dict(name="partial", consts=consts(alphabet=PARTIAL, steps=6, commits=3, lines=3), invariants=G_ALL,
                  budget=320, variants=RENDERS[:4]),
         ],
         "thorough": [
